@@ -49,6 +49,12 @@ def base_meshes(tier):
                                                     [[[0, 0, 0], [3, 3, 7]], [[4, 2, 2], [7, 5, 5]]],
                                                     [[[2, 2, 2], [5, 5, 5]], [[10, 6, 6], [13, 9, 9]]]]},
     ]
+    if tier == "thorough":
+        # one level-0 box, every set of <= 2 fine boxes on a 4-cell lattice; and a two-box level 0 under them
+        for l0 in ([[[0, 0, 0], [3, 3, 3]]], [[[0, 0, 0], [1, 3, 3]], [[2, 0, 0], [3, 3, 3]]]):
+            coarse = [(tuple(lo), tuple(hi)) for lo, hi in l0]
+            for fs in scope.fine_box_sets(coarse, [8, 8, 8], 4, 2):
+                ms.append({"ndims": 3, "domain": [4, 4, 4], "levels": [l0, [[list(lo), list(hi)] for lo, hi in fs]]})
     return ms
 
 
@@ -60,11 +66,11 @@ GEOS = [({"origin": [0.0, 0.0, 0.0], "dx0": [0.25, 0.25, 0.25]}, True),
 def cases(tier, seed):
     out = []
     for mi, base in enumerate(base_meshes(tier)):
-        for r in range(3):
+        for r in (range(3) if mi < 3 else [mi % 3]):
             mesh = rot(base, r)
             for n in range(3):
                 for gi, (geo, dyadic) in enumerate(GEOS):
-                    if tier == "quick" and gi != (mi + r + n + seed) % 3 and not (gi == 1 and r == 0):
+                    if (tier == "quick" or mi >= 3) and gi != (mi + r + n + seed) % 3 and not (gi == 1 and r == 0 and mi < 3):
                         continue
                     d = dict(mesh)
                     d.update(geo)
